@@ -579,10 +579,11 @@ impl Sup {
                 let r2 = ask(&mut k2, &h, self.timeout);
                 let (cls, stage, how2) = match r2 {
                     Reply::Line(l) => {
-                        // did not reproduce alone: report what the first run did, flagged
+                        // did not reproduce alone (every case must replay alone): a loaded machine or the state of a
+                        // long-lived child; the verdict of the fresh child counts, the episode is flagged
                         let _ = kill(&mut k2);
                         let c = if is_to { "timeout" } else { "abort" };
-                        let _ = writeln!(self.out, "{h}\t{c}\t0\t-\t-\t-\t-\t-\tok\t0\tstage=?;{how};alone={}", l.split('\t').nth(1).unwrap_or("?"));
+                        let _ = writeln!(self.out, "{l};flaky={c}:{how}");
                         return;
                     }
                     Reply::Dead(s, fr) => ("abort", s, format!("{};frames={fr}", reap(&mut k2))),
